@@ -73,6 +73,20 @@ func (r *anyRes) Nth(list interface{}, i int) (interface{}, error) {
 	return reflect.ValueOf(list).Index(i).Interface(), nil
 }
 
+// named Go types with the underlying kinds the scalars know (one of them with a String method, as generated enumerations have)
+type nInt8 int8
+type nInt16 int16
+type nInt32 int32
+type nInt64 int64
+type nInt int
+type nUint8 uint8
+type nFloat64 float64
+type nFloat32 float32
+type nString string
+type nBool bool
+
+func (n nInt16) String() string { return "HIGH" }
+
 // thing is an object value (type Thing)
 type thing struct{}
 
@@ -101,9 +115,21 @@ func (p *PetCat) Resolve(field *ggql.Field, args map[string]interface{}) (interf
 	return "ok", nil
 }
 
+// MemA and MemB are the members of the union Mem (bound by name); every field of theirs is answered with the value
+// under test.
+type MemA struct{ w *world }
+type MemB struct{ MemA }
+
+func (m *MemA) Resolve(field *ggql.Field, args map[string]interface{}) (interface{}, error) {
+	return m.w.ret, nil
+}
+
 func (w *world) serve(field *ggql.Field, args map[string]interface{}) (interface{}, error) {
 	if field.Name == "pets" {
 		return w.pets, nil
+	}
+	if field.Name == "mem" {
+		return []interface{}{&MemA{w: w}, &MemB{MemA{w: w}}, &MemA{w: w}}, nil
 	}
 	if field.Name == "two" {
 		w.calls++
@@ -138,7 +164,26 @@ func sdlOf(u *Universe, inTypes, outTypes []*TRef) string {
 		b.WriteString("type " + o + " { id: String }\n")
 	}
 	b.WriteString("interface Pet { say: String }\ntype PetCat implements Pet { say(x: Int): String }\ntype PetDog implements Pet { say(x: ID): String }\n")
-	b.WriteString("type Query {\n  pets: [Pet]\n  two(p: Int!, q: Int!): String\n")
+	// the members of a union list declare one field name with different types (the type under test / its companion)
+	for _, mt := range []string{"MemA", "MemB"} {
+		b.WriteString("type " + mt + " {\n  id: String\n")
+		seenM := map[string]bool{}
+		for _, t := range outTypes {
+			n := "o" + t.Enc()
+			if seenM[n] {
+				continue
+			}
+			seenM[n] = true
+			ft := t
+			if comp := companion(t); comp != nil && mt == "MemB" {
+				ft = comp
+			}
+			b.WriteString("  " + n + ": " + ft.String() + "\n")
+		}
+		b.WriteString("}\n")
+	}
+	b.WriteString("union Mem = MemA | MemB\n")
+	b.WriteString("type Query {\n  pets: [Pet]\n  mem: [Mem]\n  two(p: Int!, q: Int!): String\n")
 	seen := map[string]bool{}
 	for _, t := range inTypes {
 		if n := "a" + t.Enc(); !seen[n] {
@@ -499,6 +544,26 @@ func buildOut(v Val) interface{} {
 			return map[string]int{"a": 1}
 		case "struct":
 			return struct{ A int }{1}
+		case "nint8":
+			return nInt8(7)
+		case "nint16":
+			return nInt16(7)
+		case "nint32":
+			return nInt32(7)
+		case "nint64":
+			return nInt64(7)
+		case "nint":
+			return nInt(7)
+		case "nuint8":
+			return nUint8(7)
+		case "nfloat64":
+			return nFloat64(1.5)
+		case "nfloat32":
+			return nFloat32(1.5)
+		case "nstring":
+			return nString("RED")
+		case "nbool":
+			return nBool(true)
 		default:
 			return make(chan int)
 		}
@@ -612,6 +677,26 @@ func (w *world) runOut(c *Case) outObs {
 		o.JSON = d[key]
 	} else {
 		o.JSONErr = "no data object after decoding"
+	}
+	if !w.any && c.T.Base() != "Thing" && o.BadErr == "" {
+		// the same value behind the same field name on the members of a union list, where the other member declares
+		// the field with another type: what a MemA holds is what the field held above, before and after a MemB
+		w.ret = buildOut(*c.Gv)
+		r2 := w.root.ResolveString("{ mem { __typename "+key+" } }", "", nil)
+		d2, _ := r2["data"].(map[string]interface{})
+		l2, _ := d2["mem"].([]interface{})
+		if len(l2) != 3 {
+			o.BadErr = fmt.Sprintf("the members of the union list were not resolved: %v", r2)
+			return o
+		}
+		for _, i := range []int{0, 2} {
+			m, _ := l2[i].(map[string]interface{})
+			if m == nil || m["__typename"] != "MemA" || !reflect.DeepEqual(m[key], o.Mem) {
+				o.BadErr = fmt.Sprintf("member %d of the union list [MemA, MemB, MemA] holds %s for %s, the field on Query holds %s",
+					i, describe(m[key]), key, describe(o.Mem))
+				break
+			}
+		}
 	}
 	return o
 }
